@@ -14,6 +14,7 @@ import struct
 
 from ..cfg import known_falsy
 from ..model import self_attr, unparse, walk_body_shallow
+from .util import *  # noqa: F401,F403
 from .util import const_value, call_name, call_recv, calls_in, kwarg, need, node_assign_value, norm, where
 
 TECHNIQUE = "request-table typestate (remove-before-fire dominance), def-use of the correlated frame, header offset " \
@@ -145,11 +146,10 @@ def run(ctx):
     req = ctx.func("_protocol:KafkaBootstrapProtocol.request")
     sl = [x.value for x in walk_body_shallow(req.body) if isinstance(x, ast.Assign) and isinstance(x.value, ast.Subscript) and
           unparse(x.value.value) == req.first_param()]
-    ok = len(sl) == 1 and isinstance(sl[0].slice, ast.Slice) and norm(sl[0].slice.lower) == str(off) and norm(sl[0].slice.upper) == str(off + size)
+    ok = len(sl) == 1 and slice_bounds(prog, req, sl[0]) == (off, off + size)
     r.check(ok, "%s#request-id-slice" % req.qname, "bootstrap request id slice is not [%d:%d] (header format %r)" % (off, off + size, fmt),
             where(req, req.node), "responses never match: every bootstrap request times out", facts=["fmt=%s offset=%d size=%d" % (fmt, off, size)])
-    okr = len(ids2) == 1 and isinstance(ids2[0].value.slice, ast.Slice) and norm(ids2[0].value.slice.lower or ast.Constant(value=0)) == "0" \
-        and norm(ids2[0].value.slice.upper) == str(size)
+    okr = len(ids2) == 1 and slice_bounds(prog, sr, ids2[0].value) == (0, size)
     r.check(okr, "%s#response-id-slice" % sr.qname, "bootstrap response id slice is not [0:%d]" % size, where(sr, sr.node))
     gid = ctx.func("kafkacodec:KafkaCodec.get_response_correlation_id")
     ru = calls_in(gid, "relative_unpack")
